@@ -3,12 +3,18 @@ package hx
 import (
 	"bytes"
 	"fmt"
+	"os"
 	"os/exec"
 	"strings"
 )
 
 // ModelBin is the path of the extracted model driver.
-var ModelBin = "/verif/build/modelrun"
+var ModelBin = func() string {
+	if b := os.Getenv("HX_MODEL_BIN"); b != "" {
+		return b
+	}
+	return "/verif/build/modelrun"
+}()
 
 // HistTrace is an executed history.
 type HistTrace struct {
